@@ -150,6 +150,9 @@ func (e *Enc) callCommon(fr *Frame, st *State, cc *ssa.CallCommon, fnv *Val, arg
 		// the function value itself is bound to the name `callee` in a functype contract
 		return e.applyContract(fr, st, c, append([]*Val{fnv}, args...), rt, hint, pos)
 	}
+	// an unknown function VALUE may be a closure over anything: whatever its arguments are, it can mutate every heap
+	// object and every component of the abstract state
+	e.havocAll(st)
 	return e.defaultCall(fr, st, dk, args, rt, hint, pos)
 }
 
@@ -729,7 +732,10 @@ func (e *Enc) encAppend(fr *Frame, st *State, cc *ssa.CallCommon, args []*Val, r
 		inNew := "(and (<= (+ " + no + " " + ln + ") q) (< q (+ " + no + " " + nlen + ")))"
 		outside := "(or (< q " + no + ") (>= q (+ " + no + " " + nlen + ")))"
 		e.assert("(forall ((q Int)) (! (and (=> " + inOld + " (= (select " + na + " q) " + oldAt + ")) (=> " + inNew + " (= (select " + na + " q) " + src + ")) (=> (and " + fits + " " + outside + ") (= (select " + na + " q) (select (select " + h + " " + base + ") q)))) :pattern ((select " + na + " q))))")
-		e.heapSet(st, k, sorts[i], "(store "+h+" "+nb+" "+na+")")
+		e.withRef(base, func() { e.heapSet(st, k, sorts[i], "(store "+h+" "+nb+" "+na+")") }) // base itself, or a new backing
+		if b, ok := sl.Elem().Underlying().(*types.Basic); ok && b.Kind() == types.Uint8 && !isStr && len(keys) == 1 {
+			e.bcatFact(e.bseqTerm(na, no, nlen), e.bseqTerm("(select "+h+" "+base+")", off, ln), e.bseqTerm("(select "+h+" "+tbase+")", toff, tlen))
+		}
 	}
 	return &Val{T: rt, L: []Sc{{nb, "Int"}, {no, "Int"}, {nlen, "Int"}, {ncap, "Int"}}}
 }
